@@ -231,4 +231,23 @@ func init() {
 		},
 		TrustedBase: []string{stdTrusted, "OPA v0.47.0 capability check"},
 	})
+
+	reg(&PropertySpec{
+		ID: "C17", Level: "model_checking",
+		Rule: "one state = one feasible path: (a) one structured mutation (line x replacement, or deletion) of a feature-complete profile, or a degenerate document, through the real parser and generator; (b) one shape of a flattened graph within the JSON-LD processor's contract through Index and the report builder; (c) one result-set shape through BuildReport",
+		Harnesses: func(tier string) []HarnessSpec {
+			return []HarnessSpec{
+				{Pkg: "internal/validator", Fn: "VerifC17Profile", Reach: []string{"returned"}, Bounds: map[string]any{"mutations": "61 lines x 11 operators", "degenerate_documents": 15}},
+				{Pkg: "internal/validator", Fn: "VerifC17Data", Native: "VerifC17DataNative", Reach: []string{"returned", "empty-graph"}, Bounds: map[string]any{"graph_shapes": "type forms x lexical/source-information layouts (one part varies per path)"}},
+				{Pkg: "internal/validator", Fn: "VerifC17EvalResult", Native: "VerifC17EvalResultNative", Reach: []string{"returned"}, Bounds: map[string]any{"result_shapes": 6}},
+			}
+		},
+		Assumptions: []string{
+			"the program dimension is enumerated (one mutation at a time of one base profile; shapes of the flattened graph from a finite catalogue): raw byte strings and multi-point mutations are outside the bound",
+			"the byte-level behaviour of yaml.v3 (run natively on the concrete text), encoding/json, json-gold and OPA is theirs; their outputs are taken within their documented contract",
+			"no blocking: repository code has no blocking operation when no event channel is supplied; with a channel see C11",
+			"a panic is identified by the function that raised it, so a new panic site is a new violation",
+		},
+		TrustedBase: []string{stdTrusted, "stubs in gosym/stubs.go"},
+	})
 }
